@@ -123,7 +123,10 @@ func (ex *Exec) stmt(s ast.Stmt) {
 		if lit, isLit := unparen(x.Call.Fun).(*ast.FuncLit); isLit && isRecoverIdiom(lit) {
 			// defer func() { if r := recover(); r != nil { <set results> } }(): only runs its body on a panicking path, and
 			// panics are not control flow in this model (each panic site is its own safe: obligation), so returns are unaffected
-			ex.note("deferred recover(): panics below this frame become the error result (idiom recognised, normal paths unaffected)")
+			ex.note("deferred recover(): a panic below this frame becomes a return through the body of the recover (an extra return path with everything the function may touch unknown)")
+			if len(ex.loops) == 0 && len(ex.inlineStack) == 0 {
+				ex.recoverLits = append(ex.recoverLits, lit)
+			}
 			return
 		}
 		if _, isLit := unparen(x.Call.Fun).(*ast.FuncLit); isLit || len(ex.loops) > 0 {
